@@ -92,6 +92,12 @@ theorem identity_probability (p rx ry rz : Rat) (D : PauliMap) :
 theorem generate_length (ds : List Dist) (us : List Rat) (h : us.length = ds.length) :
     (generate ds us).length = 2 * ds.length := Panqec.generate_length ds us h
 
+/-- … with entries 0/1 … -/
+theorem generate_binary (ds : List Dist) (us : List Rat) : ∀ x ∈ generate ds us, x < 2 := by
+  intro x hx
+  simp only [generate, pauliToBsf, List.mem_append, List.mem_map] at hx
+  rcases hx with ⟨σ, _, rfl⟩ | ⟨σ, _, rfl⟩ <;> cases σ <;> decide
+
 /-- … which is the BSF image of independently chosen letters: the letter of qubit `q`
     depends only on the `q`-th variate and the `q`-th distribution; its X bit sits at
     position `q`, its Z bit at position `n + q`. -/
